@@ -174,6 +174,28 @@ mod verif_lex {
     fn lextable_keywords_len5() { run_keyword::<5>(); }
 
     #[kani::proof]
+    #[kani::unwind(124)]
+    fn lextable_keywords_len1() { run_keyword::<1>(); }
+    #[kani::proof]
+    #[kani::unwind(124)]
+    fn lextable_keywords_len4() { run_keyword::<4>(); }
+    #[kani::proof]
+    #[kani::unwind(124)]
+    fn lextable_keywords_len6() { run_keyword::<6>(); }
+    #[kani::proof]
+    #[kani::unwind(124)]
+    fn lextable_keywords_len8() { run_keyword::<8>(); }
+    #[kani::proof]
+    #[kani::unwind(124)]
+    fn lextable_keywords_len10() { run_keyword::<10>(); }
+    #[kani::proof]
+    #[kani::unwind(124)]
+    fn lextable_keywords_len14() { run_keyword::<14>(); }
+    #[kani::proof]
+    #[kani::unwind(124)]
+    fn lextable_keywords_len15() { run_keyword::<15>(); }
+
+    #[kani::proof]
     #[kani::unwind(4)]
     fn lextable_dispatch() {
         let b: u8 = kani::any();
